@@ -85,6 +85,10 @@ func corpus() []Case {
 		{Kind: "serve", Seq: []string{"@rcpt-send-held", rcvd3, `<message type='chat'><body>probe</body></message>`, "@out-release", canon["ping"][0]}, Labels: []string{"corpus/receipts-repeated-while-pending"}},
 		{Kind: "serve", Seq: []string{"@rcpt-send", rcvd3, rcvd1, rcvd1, rcvd1, canon["ping"][0]}, Labels: []string{"corpus/receipts-repeated"}},
 		{Kind: "serve", Seq: []string{rcvd3, rcvd1, rcvd1, "@rcpt-send", "@rcpt-cancel", rcvd1, rcvd3}, Labels: []string{"corpus/receipts-repeated-none-pending"}},
+		// history: a tracked result cut short by the end of input / by invalid XML after the result's start tag
+		{Kind: "serve", Setup: []string{"hist-consumer"}, Seq: []string{`<message id='m1' to='me@example.net/res'><result xmlns='` + nsMAM + `' queryid='q1' id='1'><forwarded xmlns='urn:xmpp:forward:0'>`}, End: "eof", Labels: []string{"corpus/history-tracked-truncated"}},
+		{Kind: "serve", Setup: []string{"hist-consumer"}, Seq: []string{canon["history"][0], `<message id='m1' to='me@example.net/res'><result xmlns='` + nsMAM + `' queryid='q1' id='1'><forwarded xmlns='urn:xmpp:forward:0'><<</forwarded></result></message>`}, Labels: []string{"corpus/history-tracked-bad-xml"}},
+		{Kind: "serve", Seq: []string{"@hist-fetch-consume", `<message id='m1' to='me@example.net/res'><result xmlns='` + nsMAM + `' queryid='q1' id='1'><!-- c --></result></message>`}, Labels: []string{"corpus/history-tracked-comment"}},
 		// handlers constructed without their optional callbacks; receipts nobody waits for, several in a row
 		{Kind: "serve", NilCB: true, Seq: []string{rcvd1, rcvd1, rcvd1, canon["ping"][0]}, Labels: []string{"corpus/receipts-unmatched-no-callback"}},
 		{Kind: "serve", NilCB: true, Seq: []string{canon["receipts"][2], rcvd3, "@rcpt-send", rcvd1, rcvd1, canon["receipts"][0]}, Labels: []string{"corpus/receipts-unmatched-no-callback-2"}},
@@ -131,7 +135,9 @@ func corpus() []Case {
 	var out []Case
 	for _, c := range cs {
 		if c.Kind == "serve" {
-			c.End = "close"
+			if c.End == "" {
+				c.End = "close"
+			}
 			t := c
 			t.Tap = true
 			out = append(out, c, t)
@@ -323,6 +329,11 @@ func genOpSeq(r *hx.Rand) (seq []string, labels []string) {
 			default:
 				st("history", -1)
 			}
+		}
+		// the last stanza may be cut short or not well formed
+		if s, l := genStanza(r, "history"); true {
+			seq = append(seq, s)
+			labels = append(labels, l...)
 		}
 	default: // receipts
 		labels = append(labels, "ops/receipts")
